@@ -239,7 +239,29 @@ def wl_before_closed(x):
     x.req("after-close", lambda: c.root.echo(2), "never")
 
 
-WORKLOADS = {"before-closed-hook": (wl_before_closed, 30), "sync": (wl_sync, 30), "async": (wl_async, 30), "nested": (wl_nested, 30), "refs": (wl_refs, 30),
+def wl_before_closed_raises(x):
+    """close() whose goodbye step fails with something other than EOFError (the before_closed hook calls a peer method that
+    raises): with close_catchall off the error reaches the caller - and the connection is closed and clean all the same"""
+    c = x.cconn
+    mine = [1, 2]
+    x.req("lend", lambda: c.root.hold(mine), 1)
+
+    def hook(root):
+        return root.nested(None, 1)          # the peer calls None(...): TypeError over there, raised here
+
+    c._config["before_closed"] = hook
+
+    def do_close():
+        try:
+            c.close()
+            return "no-error"
+        except TypeError:
+            return "raised"
+    x.req("close", do_close, None)      # with a fault injected the goodbye step may end in EOFError instead, which close() swallows
+    x.req("after-close", lambda: c.root.echo(2), "never")
+
+
+WORKLOADS = {"before-closed-hook": (wl_before_closed, 30), "before-closed-hook-raises": (wl_before_closed_raises, 30), "sync": (wl_sync, 30), "async": (wl_async, 30), "nested": (wl_nested, 30), "refs": (wl_refs, 30),
              "client-close": (wl_client_close, 30), "server-close": (wl_server_close, 30),
              "two-threads-no-timeout": (wl_two_threads_no_timeout, None), "bg-thread": (wl_bg, 30)}
 
